@@ -211,6 +211,30 @@ def end_to_end(ctx, work, spec, vcf):
                 ctx.violate("--force still asked for confirmation", inp, "no prompt", r.output[:100])
             if want not in (None, "replace"):
                 ctx.disagree("overwrite guard differs from the model", {"answer": answer, "force": force}, want, "replace")
+    # ---- the guard for EVERY command that takes an output path, with the option combinations that change what the command
+    # prints (e.g. --json): a negative or empty answer leaves the existing path untouched
+    victim = pathlib.Path(work) / "victim"
+    cmds = [("explode", [vcf, victim, "-Q", "-p", 0]), ("encode", [b, victim, "-Q", "-p", 0]), ("convert", [vcf, victim, "-Q", "-p", 0]),
+            ("dexplode-init", [vcf, victim, "-n", 2, "-Q"]), ("dexplode-init", [vcf, victim, "-n", 2, "-Q", "--json"]),
+            ("dencode-init", [b, victim, "-n", 2, "-Q"]), ("dencode-init", [b, victim, "-n", 2, "-Q", "--json"]),
+            ("dencode-init", [b, victim, "-n", 2, "--json", "-l", 3])]
+    for cmd, args in cmds:
+        for answer in ("n\n", ""):
+            shutil.rmtree(victim, ignore_errors=True)
+            victim.mkdir()
+            (victim / "KEEP_ME").write_text("x")
+            (victim / "sub").mkdir()
+            (victim / "sub" / "data").write_text("y")
+            before = protolib.snapshot(victim)
+            r = invoke([cmd, *args], input=answer)
+            ctx.case(("guard-all", cmd, tuple(map(str, args[2:])), answer), True)
+            ctx.count("guard_all_commands")
+            if r.exit_code == 0 or protolib.snapshot(victim) != before:
+                ctx.violate(f"`{cmd} {' '.join(map(str, args[2:]))}` on an existing path, confirmation answered {answer!r}, no --force: "
+                            f"exit {r.exit_code}, path {'modified' if protolib.snapshot(victim) != before else 'untouched'}",
+                            {**inp, "command": cmd, "args": [str(x) for x in args[2:]], "answer": answer}, "untouched, non-zero exit",
+                            f"exit {r.exit_code}")
+    shutil.rmtree(victim, ignore_errors=True)
     fresh = pathlib.Path(work) / "fresh.zarr"
     shutil.rmtree(fresh, ignore_errors=True)
     r = invoke(["encode", b, fresh, "-Q", "-p", 0])
